@@ -17,7 +17,7 @@ RULE = ('Hypothesis: client kind (tcp, serial rtu / ascii / binary, udp, RTU- an
         'frames, honours retry_on_empty / retry_on_invalid when a valid reply is scripted within the budget after only empty / '
         'foreign attempts, and the follow-up over the now healthy transport returns its own correct reply (values unique per '
         'transaction). Sweep: ALL scripts of length <= 2 (thorough: 3) over the behaviours x retry settings x client kinds. '
-        'Non-trivial: >=1 faulty transmission; distinct by SHA-1. Serial clients are also built with generated options: handle_local_echo on a line that echoes every written byte, strict on/off, baud rate 9600..115200.')
+        'Non-trivial: >=1 faulty transmission; distinct by SHA-1. Serial clients are also built with generated options: handle_local_echo on a line that echoes every written byte, strict on/off, baud rate 9600..115200. Further generated: OS errors of several errnos, foreign-unit frames longer than the predicted reply, broadcast writes, an unencodable request or 1..3 unanswered calls before the judged one (each bounded), a transaction-id counter about to wrap, serial options.')
 ASSUMPTIONS = ['failure to establish a connection is excepted by the property: the fake transport always connects',
                'virtual time: every wait happens on the harness clock; a transport-operation budget of 100000 stands for "hangs"',
                'binary transactions whose frames contain delimiter bytes are excluded (KF-BINARY-FRAMER-DELIMITER-BYTES)']
